@@ -458,6 +458,16 @@ def search_data(rng, huge=0.0):
             if rng.random() < 0.5:
                 pos -= pos % 8
             data[pos:pos + plen] = pat
+    if n >= 8192 and plen:
+        # occurrences that start or end next to a multiple of 8192 counted from either end (the searches work in
+        # chunks of that size, from the left in msb0 and from the right in lsb0)
+        for _ in range(rng.randint(1, 4)):
+            c = 8192 * rng.randint(1, n // 8192)
+            pos = c + rng.choice([-plen - 1, -plen, -plen + 1, -1, 0, 1])
+            if rng.random() < 0.5:
+                pos = n - pos - plen
+            if 0 <= pos <= n - plen:
+                data[pos:pos + plen] = pat
     return data, pat
 
 
